@@ -162,6 +162,7 @@ type FuncContract struct {
 	Loops       []*LoopAnn
 	Calls       []*CallAnn
 	Flags       map[string]bool
+	ExitSets    []GhostUpd          // ghost updates applied when the function returns (exit set G := e): the function defines the ghost event
 	Locals      []LocalEntry        // the function's named locals when the contract was written (declaration order): survives renames
 	Verified    bool                // contract on a dependency function that is verified, not assumed
 	UsesHide    map[string][]string // postcondition label -> opaque predicates kept opaque while proving it
@@ -702,7 +703,7 @@ func parseExprString(s string) (e Expr, err error) {
 
 var topKeywords = map[string]bool{"opaque": true, "deterministic": true, "func": true, "ghost": true, "ufunc": true, "pure": true, "pred": true, "axiom": true, "lemma": true, "type": true, "extern": true, "tag": true, "verified": true, "writers": true, "confined": true, "callers": true}
 var clauseKeywords = map[string]bool{"unfold": true, "fold": true, "owns": true, "reveal": true, "cases": true, "dispatch": true, "requires": true, "ensures": true, "modifies": true, "serves": true, "loop": true, "invariant": true,
-	"at": true, "after": true, "assert": true, "assume": true, "flag": true, "set": true, "uses": true, "locals": true, "reached": true}
+	"at": true, "after": true, "assert": true, "assume": true, "flag": true, "set": true, "uses": true, "locals": true, "reached": true, "exit": true}
 
 type rawLine struct {
 	text string
@@ -1065,6 +1066,22 @@ func readSpecFile(path string, isSpec bool) (*SpecFile, error) {
 					}
 					curCall.Folds = append(curCall.Folds, cl)
 				}
+			case "exit":
+				// exit set NAME := expr : ghost update applied at every return of the function
+				r := strings.TrimSpace(rest)
+				if !strings.HasPrefix(r, "set ") {
+					return nil, perr(g, fmt.Errorf("exit: expected 'exit set NAME := expr'"))
+				}
+				r = strings.TrimPrefix(r, "set ")
+				i := strings.Index(r, ":=")
+				if i < 0 {
+					return nil, perr(g, fmt.Errorf("exit set needs :="))
+				}
+				e, err := parseExprString(r[i+2:])
+				if err != nil {
+					return nil, perr(g, err)
+				}
+				cur.ExitSets = append(cur.ExitSets, GhostUpd{Name: strings.TrimSpace(r[:i]), E: e, Text: r})
 			case "set":
 				// ghost update at a call site: set NAME := expr
 				if curCall == nil {
